@@ -47,7 +47,7 @@ func (c Channel) TokenReader() xml.TokenReader {
 		// an xmlns attribute, and the encoder writes one for the name again: drop
 		// the attribute so that it does not end up in the output twice.
 		extensions := xmlstream.RemoveAttr(func(start xml.StartElement, attr xml.Attr) bool {
-			return start.Name.Space != "" && attr.Name.Space == "" && attr.Name.Local == "xmlns"
+			return attr.Name.Space == "xmlns" || (start.Name.Space != "" && attr.Name.Space == "" && attr.Name.Local == "xmlns")
 		})(xml.NewDecoder(bytes.NewReader(c.Extensions)))
 		payloads = append(payloads, xmlstream.Wrap(
 			extensions,
@@ -140,7 +140,22 @@ func (r *rawChildren) UnmarshalXML(d *xml.Decoder, start xml.StartElement) error
 			}
 			depth--
 		}
-		if err = e.EncodeToken(xml.CopyToken(tok)); err != nil {
+		tok = xml.CopyToken(tok)
+		if inner, ok := tok.(xml.StartElement); ok {
+			// The decoder reports namespaces both in the names and as xmlns
+			// attributes and the encoder declares the ones of the names again: drop
+			// the declarations so that they are not written twice.
+			attrs := inner.Attr[:0]
+			for _, attr := range inner.Attr {
+				if attr.Name.Space == "xmlns" || (attr.Name.Space == "" && attr.Name.Local == "xmlns") {
+					continue
+				}
+				attrs = append(attrs, attr)
+			}
+			inner.Attr = attrs
+			tok = inner
+		}
+		if err = e.EncodeToken(tok); err != nil {
 			return err
 		}
 	}
